@@ -111,6 +111,108 @@ class Documents(HypPart):
         return []
 
 
+# --- references followed by something that is not a link tail -----------------------------------------------------------
+# (a small model of its own, independent of the G4 document generator)
+
+_TAIL_LABELS = ['foo', 'Bar baz', 'x1', 'ẞ', 'a*b']
+_INERT_TAILS = ['(not a link)', '(', '(a b', '(/u "t" x)', '(/u "t', "(/u 't' 't')", '(<b)', '(<a b c)', '(a(b)', '(/u(', ' (x)', ':', '.',
+                ')', '(]', '( /u "t"x)', '(/u "t"")']
+_LINK_TAILS = [('(/x)', '/x', None), ('(/x "T")', '/x', 'T'), ('(<a b>)', 'a%20b', None), ('()', '', None), ("( /y 'q' )", '/y', 'q')]
+
+
+def _esc(text):
+    import html
+    return html.escape(text, quote=False)
+
+
+def build_tails(case):
+    """-> (markdown, expected html, labels).  Every use sits at the end of a paragraph of its own, so a tail never meets later text."""
+    from ..gen.tape import Tape
+    t = Tape(bytes.fromhex(case['tape']))
+    nlab = 1 + t.below(3)
+    names = [_TAIL_LABELS[(t.below(len(_TAIL_LABELS)) + i) % len(_TAIL_LABELS)] for i in range(nlab)]
+    names = list(dict.fromkeys(names))
+    defs = {}
+    def_blocks = []
+    for i, nm in enumerate(names):
+        url, title = '/u%d' % i, (None if t.chance(128) else 'T%d' % i)
+        defs[dochtml.normalize_label(nm)] = (url, title)
+        spelled = t.choice([nm, nm.upper(), nm.lower(), '  ' + nm + ' '])
+        line = '[%s]: %s' % (spelled, url) + ('' if title is None else t.choice([' "%s"', " '%s'", ' (%s)']) % title)
+        quoted = t.chance(64)
+        def_blocks.append(('> ' + line if quoted else line, '<blockquote>\n</blockquote>\n' if quoted else ''))
+    uses, labels = [], set()
+    for _ in range(1 + t.below(4)):
+        defined = not t.chance(50)
+        nm = t.choice(names) if defined else t.choice(['nope', 'foo bar baz', 'u0'])
+        if not defined and dochtml.normalize_label(nm) in defs:
+            defined = True
+        spelled = t.choice([nm, nm.upper()]) if defined else nm
+        image = t.chance(50)
+        form = t.weighted([(4, 'shortcut'), (1, 'collapsed'), (1, 'full')])
+        lead = t.choice(['', 'see ', 'a, '])
+        text = 'txt' if form == 'full' else spelled
+        src = ('!' if image else '') + {'shortcut': '[%s]' % spelled, 'collapsed': '[%s][]' % spelled, 'full': '[txt][%s]' % spelled}[form]
+        shown = _esc(text).replace('*', '*')
+        if t.chance(200) or form != 'shortcut' or '*' in nm:
+            tail, is_link = t.choice(_INERT_TAILS), None
+            labels.add('inert-tail')
+        else:
+            tail, href, ttl = t.choice(_LINK_TAILS)
+            is_link = (href, ttl)
+            labels.add('inline-link-tail')
+        if is_link and form == 'shortcut':
+            url, title = is_link
+            tail_html = ''
+        elif defined:
+            url, title = defs[dochtml.normalize_label(nm)]
+            tail_html = _esc(tail)
+            labels.add('defined+' + form)
+        else:
+            url = None
+            labels.add('undefined')
+        if url is None:
+            html_ = '<p>%s%s</p>\n' % (_esc(lead), _esc(src + tail))
+        else:
+            ttl = '' if title is None else ' title="%s"' % title
+            el = ('<img src="%s" alt="%s"%s />' % (url, shown, ttl)) if image else ('<a href="%s"%s>%s</a>' % (url, ttl, shown))
+            html_ = '<p>%s%s%s</p>\n' % (_esc(lead), el, tail_html)
+        uses.append((lead + src + tail, html_))
+    blocks = list(uses)
+    for d in def_blocks:
+        blocks.insert(t.below(len(blocks) + 1), d)
+    md = '\n\n'.join(b[0] for b in blocks) + '\n'
+    return md, ''.join(b[1] for b in blocks), tuple(sorted(labels))
+
+
+class Tails(HypPart):
+    name = 'reference-tails'
+    budget = {'quick': 12000, 'thorough': 300000}
+    rule = ('paragraphs ending in a shortcut / collapsed / full reference (link or image, defined or undefined label, re-spelled) that is '
+            'directly followed by text which is not an inline-link tail ("(not a link)", unclosed or over-full parentheses, broken '
+            'destinations and titles, punctuation) or, for shortcut references, by a valid inline-link tail (which wins); definitions '
+            'before, between or after the uses, some inside a block quote; oracle: HTML written from this small model; non-trivial = '
+            'a defined label followed by an inert tail; distinct = distinct tape')
+    required_labels = {'inert-tail': 0.3, 'inline-link-tail': 0.05, 'defined+shortcut': 0.2, 'undefined': 0.05}
+
+    def strategy(self, tier):
+        return hex_tapes(12, 60).map(lambda h: {'tape': h})
+
+    def describe(self, case):
+        return build_tails(case)[0]
+
+    def check(self, case):
+        md, exp, labels = build_tails(case)
+        nt = any(l.startswith('defined+') for l in labels) and 'inert-tail' in labels
+        try:
+            got, _ = renderers.render('Html', {}, md)
+        except Exception as exc:
+            return Out(Fail('resolution', 'raised ' + exc_sig(exc), markdown=md, error=repr(exc)), nt=nt, labels=labels)
+        if normalize(got) != normalize(exp):
+            return Out(Fail('resolution', 'reference followed by a non-tail: html differs', markdown=md, actual=got, expected=exp), nt=nt, labels=labels)
+        return Out(nt=nt, labels=labels)
+
+
 CURATED = [
     ("[foo]: /first\n\n> [FOO]: /second\n\n[Foo] [foo][] [x][fOo] ![foo]\n",
      "<blockquote>\n</blockquote>\n<p><a href=\"/first\">Foo</a> <a href=\"/first\">foo</a> <a href=\"/first\">x</a> <img src=\"/first\" alt=\"foo\" /></p>\n"),
@@ -154,7 +256,7 @@ class C07(Prop):
         return 'fold pairs checked: %d' % dochtml.fold_selfcheck()
 
     def parts(self):
-        return [Documents(), Curated()]
+        return [Documents(), Tails(), Curated()]
 
 
 PROP = C07()
